@@ -75,7 +75,7 @@ type Ctl struct {
 	freeYield atomic.Int32 // in free mode: 1-in-N chance to yield at a hook
 	freeSeed  atomic.Int64
 
-	OnStep func(s Step) // optional: called after a goroutine was released and quiescence re-established
+	OnStep func(s Step) // optional: called for every scheduling decision, just before the chosen goroutine is released
 	// OnHolders, when set, is called at every quiescent point at which two or more goroutines are parked at gates
 	// that lie inside critical sections (".locked", ".rlocked", ".bcast", ".wait" points)
 	OnHolders func(held []Arrival)
@@ -575,10 +575,10 @@ func (c *Ctl) Run(o Options, driversDone func() bool) Result {
 		st := Step{Role: a.Role, Pt: a.Pt, Obj: a.Obj, N: a.N}
 		c.Steps = append(c.Steps, st)
 		c.Choices = append(c.Choices, a.Role)
-		close(a.release)
 		if c.OnStep != nil {
-			c.OnStep(st)
+			c.OnStep(st) // before the release: whatever the goroutine records next comes after its step line
 		}
+		close(a.release)
 	}
 	res.Steps = c.Steps
 	res.Choices = c.Choices
